@@ -105,6 +105,9 @@ class Ctx:
     def n(self, quick: int, thorough: int) -> int:
         """case budget for the tier (VERIF_SCALE multiplies it, for soak runs)"""
         k = thorough if self.thorough else quick
+        if os.environ.get("VERIF_ESCALATE") == "1" and not self.thorough:
+            # the regeneration tie is broken on this run: look harder through the correspondence (bounded: 6x quick)
+            k = min(thorough, 6 * quick)
         return max(1, int(k * float(os.environ.get("VERIF_SCALE", "1"))))
 
     def add(self, op, impl, oracle=None, nontrivial=True, meta=None, kind=""):
